@@ -80,6 +80,17 @@ theorem C08_bitpacked_column_roundtrip (vals : List Nat) (hv : ∀ v ∈ vals, v
 
 example : (0 :: bitpackedEnc [10, 20, 40]) = [0, 0x8a, 0x8a, 0x83, 0x83, 0x34] := by decide
 
+/-- the invariant of `LinearCodecEstimator`'s pass over the column, for the update step as the
+source has it now (`Gen.linearDevStep` is translated from `collect_after_line_estimation` on every
+run): starting from `(u64::MAX, 0)`, after the pass `min_deviation ≤ deviationᵢ ≤ max_deviation`
+for every row — the first row included. This is what makes every residual
+`deviationᵢ − min_deviation` fit `compute_num_bits(max_deviation − min_deviation)`. -/
+theorem C08_linear_estimator_invariant (devs : List Nat) :
+    ∀ d ∈ devs, (devBounds devs).1 ≤ d ∧ d ≤ (devBounds devs).2 :=
+  devBounds_spec devs
+
+example : devBounds [7, 3, 5] = (3, 7) ∧ devBounds [9] = (9, 9) := by decide
+
 /-- linear codec, in `BitVec 64`: exact for every column, every row and *every* estimation line
 (whatever `Line::train` returns): the stored offset is `deviationᵢ − min_deviation`, which lies
 in `[0, max_deviation − min_deviation]` and therefore fits the chosen width; the `HALF_SPACE`
